@@ -15,6 +15,8 @@ MCTunnelKinds == {"tcp", "tcp+sni", "https+tcp+sni", "tcp+tls", "tcp~2", "tcp+sn
 MCGrpcKinds == {"grpc", "grpc~2"}
 \* servers that proxy.serve starts in two steps the harness can take apart (not the tcpproxy-based one)
 MCNoKinds == {}
+\* servers the harness can hand a listener that fails on command (everything proxy.serve starts in one step)
+MCFailKinds == {"http", "https", "tcp", "tcp+sni", "grpc", "tcp+tls"}
 \* "tcp-dyn" is a proto=tcp-dynamic listener with a certificate source: TLS is terminated on the dynamic port,
 \* and the listener is closed when the route of its port goes
 MCKindOrderDyn == <<"http", "tcp", "grpc", "tcp-dyn">>
@@ -38,6 +40,7 @@ MCDur == [d \in {"short", "edge", "long", "inf", "mute", "stall0", "stall1", "st
 
 ItemJson(it) == [srv |-> it.srv, dur |-> it.dur, at |-> it.at, st |-> it.st]
 Scenario == [kinds |-> kinds, tstart |-> tstart, tret |-> clock, w |-> W, late |-> late, removed |-> removed, signals |-> signals,
+             failed |-> failed, tsig |-> tsig,
              items |-> [i \in DOMAIN items |-> ItemJson(items[i])]]
 
 GenNext == /\ Next
